@@ -775,7 +775,7 @@ def run(ctx):
     res = Result("C03")
     tier = ctx["tier"]
     import pycode_types  # translated frame object (Frame getters / setters / length / header / bytes) vs a real Frame subclass
-    pycode_types.check(res, random.Random(ctx["seed"] * 7919 + 79), ctx["tier"], ["frameobj"])
+    pycode_types.check(res, random.Random(ctx["seed"] * 7919 + 79), ctx["tier"], ["net", "frameobj"])
     res.rule = ("round trips: frames of all 33 kinds built from (addresses, versions, payload) -> .bytes (+ trailing bytes) -> "
                 "FrameReader.read -> fields, class, .bytes, == ; 2-6 frames serialised one after the other, frames for other devices (bodies with start delimiters / "
                 "embedded whole frames) in between -> read all -> exactly the frames addressed to us, in order; wire frames with arbitrary last byte -> read -> .bytes; "
